@@ -708,6 +708,8 @@ def ite_adapters(prog):
             if cs.callee.name == "insert" and cs is not None and len(cs.args) >= 3 and not cs.callee.key().endswith("IteTable>::insert"):
                 stored = cs.args[2]
         wr = parity_by_flag(stored, ("param", 3))
+        if wr is None:
+            wr = _through_helper(prog, stored, ("param", 3))
         # read value
         tg = get.terms
         kids = {k.npath: k for k in prog.children(get)}
@@ -725,6 +727,24 @@ def ite_adapters(prog):
                             neg = mir.is_call(r, "neg")
                     rd[flag] = 1 if neg else 0
                 break
+        if len(rd) != 2:
+            # `r.map(|v| ite.helper(v))` with a helper that negates iff the triple is complemented
+            for x in mir.subterms(tg.ret):
+                if mir.is_call(x, "map") and len(x[2]) == 2:
+                    clo = strip(x[2][1])
+                    if clo[0] == "agg" and clo[1] == "closure" and clo[2] in kids:
+                        r_ = strip(kids[clo[2]].terms.ret)
+                        arg = None
+                        if r_[0] == "call":
+                            for a_ in r_[2]:
+                                a0 = strip(a_)
+                                while a0[0] == "deref":
+                                    a0 = strip(a0[1])
+                                if a0 == ("param", 2):
+                                    arg = strip(a_)
+                        hp = _through_helper(prog, r_, arg) if arg is not None else None
+                        if hp:
+                            rd = dict(hp)
         if len(rd) != 2:
             # no branch on the flag at all: the table value is returned the same way for both kinds of triple
             def neg_map(a):
@@ -759,6 +779,27 @@ def ite_adapters(prog):
         out.append(inst("CP", key, VIOLATION if errs else OK, ins, None,
                         "; ".join(errs) if errs else "complement flag applied symmetrically: insert negates iff get negates"))
     return out
+
+
+def _through_helper(prog, t, res):
+    """t = H(.., res, ..) with H a local helper whose result is γ(is_compl_choice(self); res', neg(res')): flag parity"""
+    t = strip(t) if t is not None else None
+    if not (isinstance(t, tuple) and t and t[0] == "call" and (t[1].local or t[1].res_local)):
+        return None
+    pos = None
+    for i, a in enumerate(t[2]):
+        a0 = strip(a)
+        while isinstance(a0, tuple) and a0 and a0[0] == "deref":
+            a0 = strip(a0[1])
+        r0 = strip(res)
+        while isinstance(r0, tuple) and r0 and r0[0] == "deref":
+            r0 = strip(r0[1])
+        if a0 == r0:
+            pos = i + 1
+    hs = [g for g in prog.lib_fns if g.name == t[1].name and "{closure" not in g.npath and "cache::ite" in g.npath]
+    if pos is None or len(hs) != 1:
+        return None
+    return parity_by_flag(hs[0].terms.ret, ("param", pos))
 
 
 def parity_by_flag(t, res):
